@@ -243,3 +243,73 @@ def heap_trace_stage(res, prop, n, shards=NCPU, timeout=900):
     any_p = next(iter(byid.values()))
     res.samples.append({"program": any_p["steps"], "recorded": any_p["rec"][-1]})
     return res
+
+
+# ------------------------------------------------------------------ C19: both index-width configurations
+def judge_like(a, b):
+    """the validator printed nothing for this event (it conforms): the 64-bit outcome must then agree wherever both are fully claimed"""
+    if a[0] == "raised" and b[0] == "raised":
+        return True
+    if a[0] == b[0] == "ragged" and repr(a) != repr(b):
+        return False
+    return repr(a) == repr(b)
+
+
+def c19_model_stage(res, family, mc_module, cfg_name, want_phase=2, timeout=1500):
+    cfg = os.path.join(SPEC, "mc", f"{mc_module}.{cfg_name}.cfg")
+    dump = os.path.join(scratch(), f"{mc_module}.c19.{os.getpid()}.dump")
+    t = Timer()
+    r = tlc.run_tlc(os.path.join(SPEC, "mc", mc_module + ".tla"), cfg, dump=dump, timeout=timeout)
+    tlc.require_clean(r, f"{mc_module} ({cfg_name})")
+    res.states += r["distinct"]
+    res.transitions += r["states"]
+    tot, bad, samples = replay.replay_c19(dump, family, want_phase)
+    os.remove(dump)
+    res.evaluations += tot["evals"]
+    res.nontrivial += tot["nontrivial"]
+    res.traces += tot["cases"]
+    res.extra.setdefault("replay", []).append(dict(tot, module=mc_module, cfg=cfg_name, tlc_states=r["distinct"], wall_s=t.s()))
+    for b in bad:
+        b["binding"] = "A:tlc->code (64-bit vs 32-bit run of the same TLC-generated case)"
+        b["family"] = family
+    res.bad += bad
+    res.samples += samples[:1]
+
+
+def c19_trace_stage(res, props, n_each):
+    """driver events of C01-C09 executed under the 32-bit configuration and judged by TLC; an event counts against C19 only
+    if the same event conforms (or is out of claim) under the 64-bit configuration"""
+    drv = importlib.import_module("harness.drivers_ragged")
+    t = Timer()
+    events = []
+    for p in props:
+        for e in drv.generate(p, SEED, n_each):
+            e["id"] = len(events)
+            e["prop"] = p
+            events.append(e)
+    ev64 = [dict(e, opts=dict(e["opts"], width=64)) for e in events]
+    ev32 = [dict(e, opts=dict(e["opts"], width=32)) for e in events]
+    exec_events("ragged", ev64)
+    exec_events("ragged", ev32)
+    payload = [{"id": e["id"], "case": e["case"], "out": e["out"], "strict": bool(e["strict"])} for e in ev32]
+    v32, st = trace.validate(payload, "Trace_Ragged")
+    res.states += st["trace_states"]
+    res.transitions += st["trace_states"]
+    diff = 0
+    for a, b in zip(ev64, ev32):
+        v, exp = v32[b["id"]]
+        if v == "unspec":
+            res.unspec += 1
+            continue
+        # v == "ok": the 32-bit outcome conforms to the specification; then it may differ from the 64-bit outcome only in unclaimed parts
+        if exp is None and b["case"][0] == "like" and b["case"][1] == "empty":
+            exp = ["shape"]                                         # empty_like: content is uninitialised memory
+        same = replay.same_outcome(exp, a["out"], b["out"]) if exp is not None else (v == "ok" and judge_like(a["out"], b["out"]))
+        if not same:
+            diff += 1
+            res.bad.append({"case": b["case"], "opts": b["opts"], "expected": a["out"], "observed": b["out"], "verdict": "width",
+                            "spec": exp, "verdict32": v, "binding": "B:code->tlc (32-bit outcome judged by TLC, compared with the 64-bit outcome)", "family": "ragged"})
+    res.evaluations += 2 * len(events)
+    res.traces += len(events)
+    res.nontrivial += len({short_hash(e["case"]) for e in events})
+    res.extra.setdefault("trace", []).append({"module": "Trace_Ragged", "events_per_width": len(events), "differences": diff, "wall_s": t.s()})
